@@ -1,5 +1,6 @@
 """C01 - validation verdicts match JSON Schema Draft 6."""
 import copy
+import sys
 import itertools
 
 from hypothesis import strategies as st
@@ -210,7 +211,18 @@ def judge(element, schema, values, opts, label, stats, key_schema):
 replay_predicate = predicate
 
 
+ATHERIS_RUNS = 10000  # per campaign; shards 0-2 of the thorough tier run one each
+
+
+def atheris_strategy():
+    return cases(cfg())
+
+
 def run_shard(ctx, stats):
-    return runner.hyp_run(ctx, stats, cases(cfg(ctx)), predicate, BUDGET[ctx.tier])
+    failure = runner.hyp_run(ctx, stats, cases(cfg(ctx)), predicate, BUDGET[ctx.tier])
+    if failure or ctx.quick or ctx.shard >= 3:
+        return failure
+    # coverage-guided: libFuzzer mutates the byte stream behind the same strategy, the Draft-6 oracle sits in the target
+    return runner.atheris_campaign(ctx, stats, sys.modules[__name__], ATHERIS_RUNS)
 
 
